@@ -98,9 +98,12 @@ def generate(streams, tier):
     if prng.random() < 0.1:
         # a protocol type that happens to be called like the one helper name the hand-written modules leak into the
         # top-level package (`Optional`, through a star-import of a module that imports it from typing).  A
-        # self-contained struct without optional members of its own: valid for the generator as it stands.
-        rel = prng.choice(sorted(r for r in tree if "<protocol>" in tree[r]))
-        if 'name="Optional"' not in tree[rel]:
+        # self-contained struct without optional members of its own, in a spec file that declares no optional member at
+        # all: valid for the generator as it stands (next to a class with an optional member the module of that class
+        # re-exports typing's Optional over it - the degenerate collision described in DESIGN.md, not generated).
+        cands = sorted(r for r in tree if "<protocol>" in tree[r] and 'optional="true"' not in tree[r])
+        rel = prng.choice(cands) if cands else None
+        if rel is not None and 'name="Optional"' not in tree[rel]:
             tree[rel] = tree[rel].replace("</protocol>", '    <struct name="Optional">\n        <field name="weight" type="char"/>\n'
                                                          '    </struct>\n</protocol>', 1)
             plan["helper_named_type"] = rel
